@@ -565,7 +565,7 @@ def signature(op, res, verdict):
     known_findings.d/C12.json; all entries there are `fixed` now and suppress nothing)"""
     w = op.split(" ")
     why = verdict[4:] if verdict.startswith("bad ") else verdict
-    why = why.split(" expected=")[0]
+    why = why.split(" expected=")[0].split(" model=")[0]
     if res == "TIMEOUT":
         why = "hang"
     elif res == "CRASH" or res.startswith("PANIC"):
@@ -642,7 +642,7 @@ def judge(ctx, harness, model, ops):
     return list(zip(ops, res, dl, verd)), None
 
 
-THEOREMS_MIN = 32
+THEOREMS_MIN = 35
 
 
 def main(ctx):
@@ -651,11 +651,11 @@ def main(ctx):
     # the Tie is built separately: if the regenerated decision structure changed, Props and the checker still build
     # and the implementation-side search (the correspondence run below) still runs
     tie_ok, tie_errs = ctx.lake_build(["GojaModel.C12.Tie"]) if regen_ok else (False, [])
-    ctx.obligation("tie:regenerated-layout-decisions(FToStr guards/switch/tail, Number.prototype front-ends)=expected", "tie",
+    ctx.obligation("tie:regenerated-decisions(FToStr guards/switch/tail, Number.prototype front-ends, FToBaseStr skeleton)=expected", "tie",
                    bool(regen_ok and tie_ok), "" if (regen_ok and tie_ok) else "regen_ok=%s %s" % (regen_ok, json.dumps(tie_errs)[:800]))
     ctx.audit("GojaModel.C12.Props", expect_min=THEOREMS_MIN)
     if regen_ok and tie_ok and ctx.tier == "thorough":
-        ctx.audit("GojaModel.C12.Tie", expect_min=7)   # quick: Tie is re-checked by the build; its axioms are audited in thorough
+        ctx.audit("GojaModel.C12.Tie", expect_min=10)   # quick: Tie is re-checked by the build; its axioms are audited in thorough
     if ctx.tier == "thorough":
         ctx.leanchecker("GojaModel.C12.Props")
         ctx.leanchecker("GojaModel.C12.Tie")
